@@ -39,7 +39,8 @@ ASSUMPTIONS = [
     "30 % in the median over lines >= 2 ('cor'); records of 60 and 100 segments (the statement fixes no length for this test; "
     "at 20 segments without overlap the estimator's scatter on the unchanged tree reaches 4.6 %, too close to the 5 % limit "
     "to be judged without false alarms; at >= 60 segments it stays below 2.5 % over seeds 0..9)",
-    "only even nxseg and integer nxseg*pov, as in the quantifier",
+    "integer nxseg*pov only, as in the quantifier; odd segment lengths (25, 75) are covered for the periodogram estimator only (grid = k fs/nxseg, "
+    "k = 0..floor(nxseg/2); the correlogram route pads to nxseg points of an even-length transform and is not defined for odd nxseg)",
 ]
 
 TOL_WELCH = 1e-10
@@ -80,7 +81,7 @@ def welch_ref(Yall, Yref, fs, nxseg, pov, demean=True):
             for j in range(B.shape[0]):
                 P[i, j] += np.conj(A[i]) * B[j]
     P /= len(starts) * fs * np.sum(w * w)
-    P[:, :, 1:nxseg // 2] *= 2.0
+    P[:, :, 1:(nxseg + 1) // 2] *= 2.0      # one-sided doubling: every line except 0 and (for even nxseg) Nyquist
     return P
 
 
@@ -453,6 +454,13 @@ def lattice(thorough):
                                 continue        # quick: every fs at nxseg 16; beyond, fs rotates over (overlap, length, references)
                             for method in ("per", "cor"):
                                 out.append((len(out), n_all, refs, nxseg, pov, nseg, fs, method))
+            # odd segment lengths (periodogram only): the last line is not Nyquist and must be doubled like the others
+            if n_all <= (4 if thorough else 3):
+                for nxseg in (25, 75):
+                    for pi, pov in enumerate((0.0, 0.2, 0.6)):
+                        for si, nseg in enumerate((2, 3, 5.5)):
+                            fs = FSS[(pi + si + len(refs)) % 3]
+                            out.append((len(out), n_all, refs, nxseg, pov, nseg, fs, "per"))
     return out
 
 
